@@ -22,7 +22,7 @@ type BodyCase struct {
 	Syntax string `json:"syntax"` // native | json
 }
 
-const bodyRule = "bodies: 23 native body templates and 6 JSON bodies (attributes, static blocks, blocks not mentioned by the spec, dynamic blocks with default/custom/shadowing iterators, labels from the iterator, nested dynamics referring to outer iterators) x 9 hcldec specs; reported = hcldec.Variables (static bodies) or dynblock.ExpandVariablesHCLDec + dynblock.VariablesHCLDec (bodies with dynamic blocks); Expand+Decode in the full scope must equal Expand+Decode in the pruned and altered scopes; iterator names must not be reported"
+const bodyRule = "bodies: 27 native body templates and 6 JSON bodies (attributes, static blocks, blocks not mentioned by the spec, dynamic blocks with default/custom/shadowing iterators, labels from the iterator, nested dynamics referring to outer iterators) x 12 hcldec specs (incl. DefaultSpec with an attribute default and a four-level nesting spec); reported = hcldec.Variables (static bodies) or dynblock.ExpandVariablesHCLDec + dynblock.VariablesHCLDec (bodies with dynamic blocks); Expand+Decode in the full scope must equal Expand+Decode in the pruned and altered scopes; iterator names must not be reported"
 
 var attrA = &hcldec.AttrSpec{Name: "a", Type: cty.DynamicPseudoType}
 var inner = hcldec.ObjectSpec{"a": attrA}
@@ -39,6 +39,14 @@ var specTable = map[string]hcldec.Spec{
 	"attrs":   hcldec.ObjectSpec{"b": &hcldec.BlockAttrsSpec{TypeName: "b", ElementType: cty.String}},
 	"nested":  hcldec.ObjectSpec{"b": &hcldec.BlockListSpec{TypeName: "b", Nested: innerC}},
 	"default": hcldec.ObjectSpec{"a": &hcldec.DefaultSpec{Primary: attrA, Default: &hcldec.LiteralSpec{Value: cty.StringVal("dflt")}}},
+	"default-attr": hcldec.ObjectSpec{"a": &hcldec.DefaultSpec{Primary: attrA, Default: &hcldec.AttrSpec{Name: "dflt", Type: cty.DynamicPseudoType}},
+		"b": &hcldec.BlockListSpec{TypeName: "b", Nested: hcldec.ObjectSpec{"a": &hcldec.DefaultSpec{Primary: attrA, Default: &hcldec.AttrSpec{Name: "dflt", Type: cty.DynamicPseudoType}}}}},
+	"deep": hcldec.ObjectSpec{"b": &hcldec.BlockListSpec{TypeName: "b", Nested: hcldec.ObjectSpec{"a": attrA,
+		"c": &hcldec.BlockTupleSpec{TypeName: "c", Nested: hcldec.ObjectSpec{"a": attrA,
+			"d": &hcldec.BlockTupleSpec{TypeName: "d", Nested: hcldec.ObjectSpec{"a": attrA,
+				"e": &hcldec.BlockTupleSpec{TypeName: "e", Nested: hcldec.ObjectSpec{"a": attrA}}}},
+			"f": &hcldec.BlockTupleSpec{TypeName: "f", Nested: hcldec.ObjectSpec{"a": attrA}}}},
+		"g": &hcldec.BlockTupleSpec{TypeName: "g", Nested: hcldec.ObjectSpec{"a": attrA}}}}},
 }
 
 type tmpl struct {
@@ -47,6 +55,7 @@ type tmpl struct {
 	nested bool
 	bound  []string // names bound by iterators that must not be reported
 	isJSON bool
+	only   string // when set: only with this spec
 }
 
 var templates = []tmpl{
@@ -73,6 +82,13 @@ var templates = []tmpl{
 	{text: "b {\n  a = sa\n  dynamic \"c\" {\n    for_each = ls\n    content {\n      a = c.value\n    }\n  }\n}\n", nested: true, bound: []string{"c"}},
 	{text: "dynamic \"b\" {\n  for_each = ln\n  content {\n    a = one\n    c {\n      a = b.value\n    }\n  }\n}\n", nested: true, bound: []string{"b"}},
 	{text: "dynamic \"b\" {\n  for_each = ln\n  content {\n    a = one\n    dynamic \"c\" {\n      for_each = [b.value, two]\n      iterator = b\n      content {\n        a = b.value\n      }\n    }\n  }\n}\n", nested: true, bound: []string{"b"}},
+	// DefaultSpec whose default is another attribute: the primary is absent / null / set
+	{text: "dflt = sa\n", only: "default-attr"},
+	{text: "a = null\ndflt = \"${sa}-${one}\"\n", only: "default-attr"},
+	{text: "a = two\ndflt = sa\nb {\n  a = null\n  dflt = ls[0]\n}\nb {\n  dflt = one\n}\n", only: "default-attr"},
+	// four levels of dynamic nesting with static siblings that refer to global variables named like the
+	// iterators of deeper levels (globals c, d, e, f are defined by the scopes)
+	{text: "dynamic \"b\" {\n  for_each = ln\n  content {\n    a = b.value\n    dynamic \"c\" {\n      for_each = [b.value, one]\n      content {\n        a = c.value\n        dynamic \"d\" {\n          for_each = [c.value]\n          content {\n            a = d.value + two\n            dynamic \"e\" {\n              for_each = [d.value]\n              content {\n                a = \"${b.key}${c.key}${d.key}${e.key}${sa}\"\n              }\n            }\n          }\n        }\n        f {\n          a = \"${d}${e}\"\n        }\n      }\n    }\n    g {\n      a = \"${c}${d}${e}\"\n    }\n  }\n}\n", only: "deep", bound: []string{"b"}},
 	// JSON bodies
 	{text: `{"a": "${sa}-${one}"}`, isJSON: true},
 	{text: `{"a": ["${sa}", {"${s1}": "${two}"}]}`, isJSON: true},
@@ -90,11 +106,17 @@ func genBodies(tier string, emit func(engine.Case) bool) {
 	sort.Strings(specNames)
 	for ti, t := range templates {
 		for _, sn := range specNames {
-			if (sn == "nested") != t.nested {
+			if t.only != "" && t.only != sn {
+				continue
+			}
+			if t.only == "" && (sn == "default-attr" || sn == "deep") {
+				continue
+			}
+			if t.only == "" && (sn == "nested") != t.nested {
 				continue
 			}
 			needLabels := sn == "map" || sn == "object"
-			if needLabels != t.labels {
+			if t.only == "" && needLabels != t.labels {
 				continue
 			}
 			syn := "native"
